@@ -6,6 +6,7 @@ package redblack
 
 import (
 	"fmt"
+	"math/bits"
 	"strings"
 )
 
@@ -51,7 +52,7 @@ func (t *Tree[K, V]) VerifDump() string {
 }
 
 // VerifCheck checks the red-black invariants directly on the real tree: root black, no red node has a red child,
-// equal black height on every path, search-tree order with respect to the compare function (in-order sequence is
+// equal black height on every path, height <= 2*floor(log2(n+1)), search-tree order with respect to the compare function (in-order sequence is
 // non-decreasing), count == number of nodes, parent links consistent. Returns "ok" or a description.
 func (t *Tree[K, V]) VerifCheck() string {
 	if t.root == nil {
@@ -69,12 +70,18 @@ func (t *Tree[K, V]) VerifCheck() string {
 	problem := ""
 	nodes := 0
 	var prev *node[K, V]
+	height, depth := 0, 0
 	var walk func(n *node[K, V]) int
 	walk = func(n *node[K, V]) int {
 		if n == nil || problem != "" {
 			return 1
 		}
 		nodes++
+		depth++
+		if depth > height {
+			height = depth
+		}
+		defer func() { depth-- }()
 		if n.left != nil && n.left.parent != n {
 			problem = fmt.Sprintf("FAIL parent link of left child of %v", n.key)
 		}
@@ -101,6 +108,10 @@ func (t *Tree[K, V]) VerifCheck() string {
 	walk(t.root)
 	if problem != "" {
 		return problem
+	}
+	// the balance clause itself: height <= 2*floor(log2(n+1)) (implied by the colour invariants checked above)
+	if limit := 2 * (bits.Len(uint(nodes+1)) - 1); height > limit {
+		return fmt.Sprintf("FAIL height=%d limit=%d nodes=%d", height, limit, nodes)
 	}
 	if nodes != t.count {
 		return fmt.Sprintf("FAIL count=%d nodes=%d", t.count, nodes)
